@@ -19,9 +19,9 @@ NoV == [n |-> 0, k |-> "none", o |-> "none"]
 NoO == [n |-> 0, o |-> "none"]
 
 VARIABLES l, sc, L1, L2, L3, inCr, fS, fL, run, cnt, mpc, orderOK, erCnt, seenRefs, reentered,
-          failedEver, created, depsOK, popOK, endOK, faultOK, lazyOK, selfOnlyOK, lookupOK, procOK, firstRun, sameOK
+          failedEver, created, depsOK, popOK, endOK, faultOK, lazyOK, selfOnlyOK, lookupOK, procOK, firstRun, sameOK, ranM, runOK
 vars == <<l, sc, L1, L2, L3, inCr, fS, fL, run, cnt, mpc, orderOK, erCnt, seenRefs, reentered,
-          failedEver, created, depsOK, popOK, endOK, faultOK, lazyOK, selfOnlyOK, lookupOK, procOK, firstRun, sameOK>>
+          failedEver, created, depsOK, popOK, endOK, faultOK, lazyOK, selfOnlyOK, lookupOK, procOK, firstRun, sameOK, ranM, runOK>>
 
 ScOf(j) == [single   |-> [n \in Node |-> ToSet(j.single[n])],
             selfOpt  |-> [n \in Node |-> j.selfOpt[n]],
@@ -32,6 +32,7 @@ ScOf(j) == [single   |-> [n \in Node |-> ToSet(j.single[n])],
             fail     |-> [n \in Node |-> j.fail[n]],
             procs    |-> [p \in 1..Len(j.procs) |-> j.procs[p]],
             mode     |-> [n \in Node |-> j.mode[n]],
+            rorder   |-> [i \in 1..Len(j.rorder) |-> j.rorder[i]],
             sparse   |-> j.sparse]
 
 ZeroCnt == [c \in Callbacks |-> 0]
@@ -43,6 +44,7 @@ Outcome(st, ok) == [ok |-> ok, fS |-> IF sc.sparse THEN ToSet(st.fS) ELSE {[h |-
                            ELSE UNION {{[h |-> h, v |-> st.fL[h][i]] : i \in 1..Len(st.fL[h])} : h \in Node}]
 FreshP(s) ==
   /\ firstRun' = (IF firstRun.set /\ firstRun.sc = s THEN firstRun ELSE NoFirst) /\ sameOK' = sameOK
+  /\ ranM' = <<>> /\ runOK' = runOK
   /\ sc' = s
   /\ L1' = [n \in Node |-> NoV] /\ L2' = [n \in Node |-> NoV] /\ L3' = {} /\ inCr' = {}
   /\ fS' = {} /\ fL' = {}
@@ -57,7 +59,7 @@ Init ==
   /\ run = "running" /\ cnt = [n \in Node |-> ZeroCnt] /\ mpc = [n \in Node |-> "idle"]
   /\ orderOK = TRUE /\ erCnt = [n \in Node |-> 0] /\ seenRefs = [n \in Node |-> {}]
   /\ reentered = FALSE /\ failedEver = FALSE /\ created = {} /\ depsOK = TRUE /\ popOK = TRUE /\ endOK = TRUE /\ faultOK = TRUE /\ lazyOK = TRUE
-  /\ selfOnlyOK = TRUE /\ lookupOK = TRUE /\ procOK = TRUE /\ firstRun = NoFirst /\ sameOK = TRUE
+  /\ selfOnlyOK = TRUE /\ lookupOK = TRUE /\ procOK = TRUE /\ firstRun = NoFirst /\ sameOK = TRUE /\ ranM = <<>> /\ runOK = TRUE
 
 E == Trace[l]
 
@@ -83,7 +85,8 @@ ReachSet(s, frontier, seenSet) ==
   ELSE LET nxt == (UNION {Succ(s, h) : h \in frontier}) \ seenSet
        IN ReachSet(s, nxt, seenSet \cup nxt)
 Reach(s, a) == ReachSet(s, {a}, {})
-EagerReach(s) == LET eager == Node \ s.lazy IN ReachSet(s, eager, eager)
+SeqRange(q) == {q[i] : i \in 1..Len(q)}
+EagerReach(s) == LET eager == (Node \ s.lazy) \cup SeqRange(s.rorder) IN ReachSet(s, eager, eager)
 SelfOnly(s, h) == s.mode[h] # "shortcut" /\ ((h \in s.single[h] /\ ~s.selfOpt[h]) \/ (s.slice[h] = {h} /\ ~s.sliceOpt[h]))
 NoSubst(s) == \A n \in Node : s.wrap[n] = "none" /\ s.fail[n] = "none" /\ s.mode[n] = "normal"
 FaultReached(s) == \E n \in EagerReach(s) : s.fail[n] \in Reached(s.mode[n])
@@ -112,11 +115,18 @@ PopCheck == (E.ev = "before" /\ sc.mode[E.n] # "shortcut") =>
 \* C05: a successful creation went through every callback, in order, in this attempt
 EndCheck == (E.ev = "createEnd" /\ E.ok) => mpc[E.n] = (IF sc.mode[E.n] = "beforeNil" THEN "before" ELSE "after")
 \* C09: a start that returns nil met no injected fault on an eagerly reached component
-FaultCheck == (E.ev = "runReturn" /\ E.ok) => ~FaultReached(sc)
+FaultCheck == (E.ev = "runReturn" /\ E.ok) => (~FaultReached(sc) /\ \A n \in SeqRange(sc.rorder) : sc.fail[n] # "run")
+\* C13 / C09 on the engine: a runner runs once, only after everything eager (and what it reaches) is published, never after
+\* a failure of any kind, and a successful start ran them all
+RunCheck == /\ E.ev = "run" => /\ E.n \in SeqRange(sc.rorder) /\ E.n \notin SeqRange(ranM)
+                               /\ \A n \in EagerReach(sc) : L1[n] # NoV
+                               /\ ~failedEver /\ run = "running"
+                               /\ \A i \in 1..Len(ranM) : sc.fail[ranM[i]] # "run"
+            /\ (E.ev = "runReturn" /\ E.ok) => SeqRange(ranM) = SeqRange(sc.rorder)
 \* C05: exactly the eager components and what they reach were created
 LazyCheck == (E.ev = "runReturn" /\ E.ok /\ ~failedEver) => created = EagerReach(sc)
 \* C02: without substitution and faults, start-up fails iff a required point can only be satisfied by its own holder
-SelfOnlyCheck == (E.ev = "runReturn" /\ NoSubst(sc) /\ ~E.panic /\ ~reentered) =>
+SelfOnlyCheck == (E.ev = "runReturn" /\ NoSubst(sc) /\ ~E.panic /\ ~reentered /\ (\A n \in Node : sc.fail[n] # "run")) =>
                     ((~E.ok) <=> (\E h \in EagerReach(sc) : SelfOnly(sc, h)))
 
 \* C05: only an eager user post-processor is initialised, once, and before any ordinary component is created
@@ -129,8 +139,8 @@ Step ==
           /\ run' = IF E.ev = "runReturn" THEN (IF E.panic THEN "panic" ELSE IF E.ok THEN "ok" ELSE "err")
                     ELSE IF E.ev = "lookupPanic" THEN "panic" ELSE run
           /\ cnt' = IF E.ev \in Callbacks THEN [cnt EXCEPT ![E.n][E.ev] = @ + 1] ELSE cnt
-          /\ mpc' = IF E.n \in Node /\ E.ev # "procInit" THEN [mpc EXCEPT ![E.n] = NextPc(E.ev, @)] ELSE mpc
-          /\ orderOK' = (orderOK /\ ((E.n \in Node /\ E.ev # "procInit") => NextPc(E.ev, mpc[E.n]) # "BAD"))
+          /\ mpc' = IF E.n \in Node /\ E.ev \notin {"procInit", "run"} THEN [mpc EXCEPT ![E.n] = NextPc(E.ev, @)] ELSE mpc
+          /\ orderOK' = (orderOK /\ ((E.n \in Node /\ E.ev \notin {"procInit", "run"}) => NextPc(E.ev, mpc[E.n]) # "BAD"))
           /\ erCnt' = IF E.ev = "createBegin" THEN [erCnt EXCEPT ![E.n] = 0]
                       ELSE IF E.ev = "get" /\ E.ran /\ ~E.err THEN [erCnt EXCEPT ![E.n] = @ + 1] ELSE erCnt
           /\ seenRefs' = IF E.ev = "createBegin" THEN [seenRefs EXCEPT ![E.n] = {}]
@@ -140,6 +150,8 @@ Step ==
           /\ failedEver' = (failedEver \/ (E.ev = "createEnd" /\ ~E.ok) \/ (E.ev = "get" /\ E.err))
           /\ created' = IF E.ev = "createBegin" THEN created \cup {E.n} ELSE created
           /\ procOK' = (procOK /\ ProcCheck)
+          /\ ranM' = IF E.ev = "run" THEN Append(ranM, E.n) ELSE ranM
+          /\ runOK' = (runOK /\ RunCheck)
           \* C10: every run of one scenario (whatever the registration / candidate / creation-relevant orders) ends alike
           /\ firstRun' = IF E.ev = "runReturn" /\ ~firstRun.set THEN [set |-> TRUE, sc |-> sc, out |-> Outcome(E.st, E.ok)] ELSE firstRun
           /\ sameOK' = (sameOK /\ ((E.ev = "runReturn" /\ firstRun.set /\ firstRun.sc = sc) =>
@@ -184,6 +196,7 @@ M_C05_AllCallbacks == endOK
 M_C05_Lazy == lazyOK
 M_C05_LazyProcs == procOK
 M_C10_EngineSameOutcome == sameOK
+M_C13_Runners == runOK
 M_C09_FaultFails == faultOK
 M_C02_FailIffSelfOnly == selfOnlyOK
 M_C09_NoPanic == run # "panic"
